@@ -433,7 +433,12 @@ Definition init_naming (c : config) (w : world) (n : naming) : res (naming_state
   | NNumbersDirect =>
     bind (with_listing w (fun w' => get_highest_index (woff w') (c_spec c) (fixed_of c w') (wfs w')))
          (fun o w1 =>
-            let idx := match o with None => 0 | Some i => if c_append c then i else i + 1 end in
+            (* the newest file is continued only if it is still there as a plain file *)
+            let idx := match o with
+                       | None => 0
+                       | Some i => if c_append c && match lookup (wfs w1) (name_of c w1 (Some (number_infix i))) with Some _ => true | None => false end
+                                   then i else i + 1
+                       end in
             (Ok (NSNumD idx, number_infix idx), w1))
   end.
 
